@@ -45,6 +45,14 @@ impl ScopeRef {
         scope.flow = true;
         Self::dynamic(scope)
     }
+    /// Create a new subscope for the items of an imported file.
+    ///
+    /// Variables declared there are variables of the importing scope.
+    pub fn sub_import(parent: Self) -> Self {
+        let mut scope = Scope::sub(parent);
+        scope.import = true;
+        Self::dynamic(scope)
+    }
     fn dynamic(scope: Scope) -> Self {
         Self::Dynamic(Arc::new(scope))
     }
@@ -209,6 +217,10 @@ pub struct Scope {
     /// True for the body of a loop (flow control): assignments there may
     /// update a global variable.
     flow: bool,
+    /// True for the scope of an imported file, which has functions and
+    /// mixins of its own (until they are exposed to the importing scope),
+    /// while its variables are declared in the importing scope.
+    import: bool,
     /// The variables that are configured by `with` for this module, and
     /// that the module has not (yet) declared with `!default`.
     config: Mutex<BTreeSet<Name>>,
@@ -232,6 +244,7 @@ impl Scope {
             format,
             content: None.into(),
             flow: false,
+            import: false,
             config: Default::default(),
         }
     }
@@ -262,6 +275,7 @@ impl Scope {
             format,
             content: None.into(),
             flow: false,
+            import: false,
             config: Default::default(),
         }
     }
@@ -279,6 +293,7 @@ impl Scope {
             format,
             content: None.into(),
             flow: false,
+            import: false,
             config: Default::default(),
         }
     }
@@ -341,7 +356,17 @@ impl Scope {
                 None => break,
             }
         }
-        self.variables.lock().unwrap().insert(name, val);
+        self.declare(name, val);
+    }
+
+    /// Declare a new variable in this scope.
+    fn declare(&self, name: Name, val: Value) {
+        match &self.parent {
+            Some(parent) if self.import => parent.declare(name, val),
+            _ => {
+                self.variables.lock().unwrap().insert(name, val);
+            }
+        }
     }
 
     /// Define a variable with a value.
